@@ -1,11 +1,16 @@
 package csub
 
 import (
+	"fmt"
 	"strings"
 	"testing"
+	"time"
+
+	sdk "github.com/cosmos/cosmos-sdk/types"
 
 	"pgregory.net/rapid"
 
+	"verifharness/internal/chain"
 	"verifharness/internal/ev"
 )
 
@@ -55,6 +60,13 @@ func TestC13(t *testing.T) {
 				e.raise(rt)
 			},
 		}
+		// Directed preamble (1 case in 3, drawn parameters): a subscription whose auto-renewal FAILS
+		// (its payer cannot afford the newer plan version) while another subscription references
+		// that newer version, followed by the deletion of the plan and the stale period. The random
+		// history continues from there.
+		if rapid.IntRange(0, 2).Draw(rt, "failedRenewalPreamble") == 0 {
+			e.preambleFailedRenewal(rt)
+		}
 		rt.Repeat(acts)
 		nt := e.outlived && e.w.C.Halt == ""
 		var classes []string
@@ -75,6 +87,91 @@ func TestC13(t *testing.T) {
 			c.Sample(map[string]any{"history_tail": e.w.C.HistTail(30), "blocks": e.w.C.Blocks, "classes": e.classes})
 		}
 	})
+}
+
+func (e *env) preambleFailedRenewal(rt *rapid.T) {
+	var free []*chain.Cons
+	for _, c := range e.cons {
+		if !e.latestView(c.Addr()).found && !e.currentView(c.Addr()).found {
+			free = append(free, c)
+		}
+	}
+	if len(free) < 1 {
+		return
+	}
+	e.class("preamble:failed-renewal")
+	a := free[0]
+	// A: one month, auto-renewal, paid by the poor payer, on the cheapest plan
+	best, bestPrice := "", int64(0)
+	for _, idx := range e.planIdxs {
+		if p, ok := e.ks().Plans.FindPlan(e.ctx(), idx, e.height()); ok && (best == "" || p.Price.Amount.Int64() < bestPrice) {
+			best, bestPrice = idx, p.Price.Amount.Int64()
+		}
+	}
+	if best == "" {
+		return
+	}
+	poor, rich := e.payers[1].Addr.String(), e.payers[0].Addr.String()
+	e.buy(rt, a, poor, best, 1, true, false)
+	if !e.latestView(a.Addr()).found {
+		return
+	}
+	// a newer version of that plan which the poor payer cannot afford
+	p := e.genPlan(rt, best)
+	p.Price = sdk.NewCoin(e.w.C.Denom(), sdk.NewInt(e.bal(poor)+int64(rapid.SampledFrom([]int{1, 1000, 1_000_000}).Draw(rt, "overBalance"))))
+	if cur, ok := e.plans[best].latest(e.height()); ok {
+		p.PlanPolicy.TotalCuLimit, p.PlanPolicy.EpochCuLimit = cur.TotalCU, cur.TotalCU
+	}
+	if err := e.tx(fmt.Sprintf("planNewVersion*(%s,price=%s)", best, p.Price.Amount), p.ValidatePlan, func() error { return e.w.C.TS.TxProposalAddPlans(p) }); err == nil {
+		e.recordPlanVersion(p)
+		e.notePlanChange(best)
+		e.class("plan-new-version")
+	}
+	e.resnap()
+	e.raise(rt)
+	// B (and possibly C): subscriptions on the newer version, paid by the rich payer
+	others := free[1:]
+	for i, c := range others {
+		if i >= 2 {
+			break
+		}
+		e.buy(rt, c, rich, best, rapid.IntRange(3, 6).Draw(rt, "monthsB"), false, false)
+	}
+	// A's month expires: the renewal onto the newer version fails for lack of funds
+	if e.pendingVersion() && !e.advEpoch(rt) {
+		return
+	}
+	if v := e.latestView(a.Addr()); v.found {
+		delta := time.Duration(int64(v.sub.MonthExpiryTime)-e.now().Unix()+1) * time.Second
+		if delta <= 0 {
+			delta = time.Second
+		}
+		if !e.adv(rt, delta) || !e.advEpoch(rt) {
+			return
+		}
+	}
+	// governance deletes the plan (or publishes yet another version), then the stale period passes
+	if rapid.Bool().Draw(rt, "deletePlan") {
+		next := e.nextEpoch()
+		if err := e.tx(fmt.Sprintf("planDel*(%s)", best), nil, func() error { return e.w.C.TS.TxProposalDelPlans(best) }); err == nil {
+			pm := e.plans[best]
+			pm.lifeDelAt[len(pm.lifeDelAt)-1] = next
+			e.notePlanChange(best)
+			e.class("plan-deleted")
+		}
+		e.resnap()
+		e.raise(rt)
+	} else {
+		p3 := e.genPlan(rt, best)
+		if err := e.tx(fmt.Sprintf("planNewVersion*(%s,price=%s)", best, p3.Price.Amount), p3.ValidatePlan, func() error { return e.w.C.TS.TxProposalAddPlans(p3) }); err == nil {
+			e.recordPlanVersion(p3)
+			e.notePlanChange(best)
+			e.class("plan-new-version")
+		}
+		e.resnap()
+		e.raise(rt)
+	}
+	e.actPastStale(rt)
 }
 
 func firstLines(s string, n int) string {
